@@ -1,17 +1,17 @@
 #!/bin/bash
-# Offline setup: generate the overlay, warm the build cache by building every
-# check binary, run the xcrypto model vectors.
+# Offline setup: generate the overlay and build the check binary of every
+# property claimed in MANIFEST.json (warms the Go build cache; ./check rebuilds
+# incrementally from /repo's working tree on every invocation anyway).
 set -u
 cd "$(dirname "$0")"
 . ./env.sh
 mkoverlay
 mkdir -p build evidence replays
-cp "$VERIF_REPO/go.sum" sim/go.sum 2>/dev/null || true
 rc=0
-for d in sim/checks/*/; do
-  lc=$(basename "$d")
+for id in $(jq -r '.checks[].property_id' MANIFEST.json); do
+  lc=$(echo "$id" | tr 'A-Z' 'a-z')
   if ! (cd sim && $GO test -c -vet=off -tags verif -overlay "$VERIF_ROOT/build/overlay.json" -o "$VERIF_ROOT/build/$lc.test" "./checks/$lc") > "build/$lc.build.log" 2>&1; then
-    echo "setup: build failed for $lc"; tail -20 "build/$lc.build.log"; rc=1
+    echo "setup: build failed for $id"; tail -20 "build/$lc.build.log"; rc=1
   fi
 done
 exit $rc
